@@ -237,6 +237,9 @@ class FileInfo:
             self.tree = ast.parse(self.src, filename=rel)
         except SyntaxError as e:
             raise AnalysisError(f"{rel}: does not parse: {e}")
+        from .canon import canonicalise
+
+        self.tree = canonicalise(self.tree)
         if rel.endswith("__init__.py"):
             self.module = os.path.dirname(rel).replace("/", ".")
         else:
